@@ -27,7 +27,9 @@ package hermes
 //@   unroll 12
 
 //@ func DateConverter$1
-//@   serves C12, C05
+// every date of the inputs (start, schedules, rotation, windows) goes through this converter: it also serves the
+// properties that rest on those dates being the calendar dates of the files
+//@   serves C12, C05, C04, C10, C16
 //@   opaque extractDate
 // parsed numbers (first, second, year field of the text, as extractDate returns them); the century of a two-digit year:
 // a year below the configured split belongs to 20xx, a year from the split on to 19xx (the window [1900+cent, 2000+cent))
@@ -607,7 +609,7 @@ package hermes
 //@   ensures[C02,C07] slow: forall(z, 0, num(), g.NAOS[z] + g.MINAOS[z] == old(g.NAOS[z]) + old(g.MINAOS[z]))
 //@   ensures[C02,C07] fast: forall(z, 0, num(), g.NFOS[z] + g.MINFOS[z] == old(g.NFOS[z]) + old(g.MINFOS[z]))
 //@   ensures[C02] dissolved: g.UMS == old(g.UMS) + sum(z, 0, num(), 4, l.DUMS[z])
-//@   ensures[C02] n2osum: g.N2onitsum == old(g.N2onitsum) + sum(z, 0, num(), 4, n2o(z))
+//@   ensures[C02,C07] n2osum: g.N2onitsum == old(g.N2onitsum) + sum(z, 0, num(), 4, n2o(z))
 //@   ensures[C02] deeper: forall(z, 1, num(), l.DUMS[z] == 0)
 //@   ensures[C07] poolsign: forall(z, 0, num(), g.NAOS[z] >= 0 && g.NFOS[z] >= 0 && g.NAOS[z] <= old(g.NAOS[z]) && g.NFOS[z] <= old(g.NFOS[z]))
 //@   ensures[C07] fertcap: g.UMS <= g.DSUMM && g.NH4UMS <= g.NH4Sum && g.UMS >= old(g.UMS)
@@ -618,7 +620,7 @@ package hermes
 //@   invariant[C02,C07] fast: forall(z, 0, \i-1, g.NFOS[z] + g.MINFOS[z] == old(g.NFOS[z]) + old(g.MINFOS[z]))
 //@   invariant rest: forall(z, \i-1, 21, g.NAOS[z] == old(g.NAOS[z]) && g.NFOS[z] == old(g.NFOS[z])) && forall(z, \i-1, 4, g.MINAOS[z] == old(g.MINAOS[z]) && g.MINFOS[z] == old(g.MINFOS[z]))
 //@   invariant[C02] dissolved: g.UMS == old(g.UMS) + sum(z, 0, \i-1, 4, l.DUMS[z])
-//@   invariant[C02] n2osum: g.N2onitsum == old(g.N2onitsum) + sum(z, 0, \i-1, 4, n2o(z))
+//@   invariant[C02,C07] n2osum: g.N2onitsum == old(g.N2onitsum) + sum(z, 0, \i-1, 4, n2o(z))
 //@   invariant[C02] deeper: forall(z, 1, \i-1, l.DUMS[z] == 0)
 //@   invariant[C07] poolsign: forall(z, 0, \i-1, g.NAOS[z] >= 0 && g.NFOS[z] >= 0 && g.NAOS[z] <= old(g.NAOS[z]) && g.NFOS[z] <= old(g.NFOS[z]))
 //@   invariant[C07] fertcap: g.UMS <= g.DSUMM && g.NH4UMS <= g.NH4Sum && g.UMS >= old(g.UMS)
@@ -951,7 +953,7 @@ package hermes
 //@   ensures[C10] notdue: !g.AUTOFERT && !due() ==> unchanged(g.NFOS, g.NAOS, g.DSUMM, g.NH4Sum, g.NFERTSIM, g.NDG.Index)
 //@   ensures[C10] schedule: !g.AUTOFERT ==> unchanged(g.ZTDG, g.NSAS, g.NLAS, g.NDIR, g.NH4N)
 //@   ensures[C10,C07] otherlayers: !g.AUTOFERT ==> forall(k, 1, 21, g.NFOS[k] == old(g.NFOS[k]) && g.NAOS[k] == old(g.NAOS[k])) && unchanged(g.C1)
-//@   ensures[C16] autononneg: g.AUTOFERT && (forall(k, 0, 300, g.NDIR[k] >= 0)) ==> g.DSUMM >= old(g.DSUMM) && g.NFERTSIM >= old(g.NFERTSIM)
+//@   ensures[C16,C07] autononneg: g.AUTOFERT && (forall(k, 0, 300, g.NDIR[k] >= 0)) ==> g.DSUMM >= old(g.DSUMM) && g.NFERTSIM >= old(g.NFERTSIM)
 
 // tillage of the day: when due the pools are mixed evenly down to the tillage depth, which preserves their sums
 //@ region Nitro#tillage from "if zeit == g.EINTE[g.NTIL.Index+1]+1 && subd == 1 {" to "if zeit == g.EINTE[g.NTIL.Index+1]+1 && subd == 1 {"
@@ -1554,7 +1556,7 @@ package hermes
 // C06  initial water content: every layer starts between wilting point and pore volume, saturated at and below the
 // groundwater table (field capacity there was set to pore volume by setFieldCapacityWithGW just before)
 //@ func Init
-//@   serves C06
+//@   serves C06, C15, C19
 //@   cases g.GROUNDWATERFROM == Polygonfile
 //@   cases g.GROUNDWATERFROM == GWTimeSeries
 //@   requires layers: 1 <= g.N && g.N <= 20 && g.DZ.Num == 10
@@ -1569,9 +1571,16 @@ package hermes
 // (layer 11, index 10, is excluded: Init copies layer 10's start value into it unconditionally - a legacy boundary value
 // for 10-layer profiles; for deeper profiles it overwrites that layer's own start value. Reading note F23, DESIGN section 12.)
 //@   ensures ordered: forall(z, 0, g.N, g.WMIN[z] < g.W[z] && g.W[z] <= g.PORGES[z])
+// C15: field capacity equals pore volume below the table of the level Init ENDS with (the level of the first day)
+//@   ensures[C15] belowtable: forall(l, 1, g.N+1, l > floor(g.GRW + 1) ==> g.W[l-1] == g.PORGES[l-1])
+// C19: the start profile lies between the start surface value and the lower-boundary temperature, and ends at the boundary
+//@   ensures[C19] startprofile: forall(i, 0, g.N+1, min(g.TSOIL[0][0], g.TBASE) <= g.TSOIL[0][i] && g.TSOIL[0][i] <= max(g.TSOIL[0][0], g.TBASE))
+//@   ensures[C19] boundary: g.TSOIL[0][g.N] == g.TBASE
 //@   safety[C06] index
 //@ loop Init#1
 //@   invariant range: 1 <= \i && \i <= g.N+1
+//@   invariant[C19] profile: forall(j, 1, \i, g.TSOIL[0][j] == g.TSOIL[0][0] - initp*real(j))
+//@   invariant[C19] gradient: initp == (g.TSOIL[0][0] - g.TBASE)/real(g.N) && g.TSOIL[0][0] == pre(g.TSOIL[0][0])
 //@ loop Init#2
 //@   invariant range: 0 <= \i && \i <= g.N
 //@   invariant bounds: forall(z, 0, \i, g.WMIN[z] <= g.WG[0][z] && g.WG[0][z] <= g.PORGES[z])
@@ -1681,3 +1690,103 @@ package hermes
 //@   ensures year: s.JAR[yrz-1] == d.datetime.Year()
 //@   ensures days: s.MaxYearDays[yrz-1] == d.datetime.YearDay()
 //@   ensures record: s.TMP[yrz-1][T-1] == d.tavg && s.TMI[yrz-1][T-1] == d.tmin && s.TMA[yrz-1][T-1] == d.tmax && s.REG[yrz-1][T-1] == d.precip && s.RADI[yrz-1][T-1] == d.globrad && s.WIN[yrz-1][T-1] == d.wind && s.RELF[yrz-1][T-1] == d.relhumid
+
+// ---------------------------------------------------------------------------
+// Round-3 strengthening: places the properties depend on OUTSIDE their kernels (storage, conversion, initialisation)
+
+// C15/C06  the backup the groundwater-change block restores from holds the parameters as they are BEFORE the initial
+// saturation below the table, and the saturation only raises field capacity from the table layer downwards
+//@ region Input#backup between "for L := 1; L <= g.AZHO; L++ { lindex := L - 1 AD, err := Hydro(" and "if !g.AUTOIRRI {"
+//@   serves C15, C06
+//@   requires layers: 1 <= g.N && g.N <= 20
+//@   ensures backup: forall(i, 0, g.N, g.W_Backup[i] == old(g.W[i]) && g.WMIN_Backup[i] == old(g.WMIN[i]) && g.PORGES_Backup[i] == old(g.PORGES[i]) && g.WNOR_Backup[i] == old(g.WNOR[i]))
+//@   ensures saturated: g.GW < real(g.N) ==> forall(i, 0, g.N, ite(real(i+1) >= g.GW + 0.5 && i+1 >= 1, g.W[i] == g.PORGES[i], g.W[i] == old(g.W[i]) || g.W[i] == g.PORGES[i]))
+//@   ensures others: unchanged(g.WMIN, g.PORGES, g.WNOR)
+//@ loop Input@"for i := 0; i < g.N; i++ { g.W_Backup[i] = g.W[i]"
+//@   invariant range: 0 <= \i && \i <= g.N
+//@   invariant backup: forall(i, 0, \i, g.W_Backup[i] == old(g.W[i]) && g.WMIN_Backup[i] == old(g.WMIN[i]) && g.PORGES_Backup[i] == old(g.PORGES[i]) && g.WNOR_Backup[i] == old(g.WNOR[i]))
+//@   invariant frame: unchanged(g.W, g.WMIN, g.PORGES, g.WNOR, g.N)
+//@ loop Input@"for l := maxVal; l <= g.N; l++ { index := l - 1 g.W[index] = g.PORGES[index]"
+//@   invariant range: maxVal <= \i && (\i <= g.N + 1 || \i == maxVal) && maxVal >= 1
+//@   invariant done: forall(i, 0, 21, ite(maxVal <= i+1 && i+1 < \i, g.W[i] == g.PORGES[i], g.W[i] == pre(g.W[i])))
+//@   invariant frame: unchanged(g.WMIN, g.PORGES, g.WNOR, g.N) && g.W_Backup == pre(g.W_Backup)
+
+// C19  the bulk density Soiltemp reads is the horizon's bulk density for EVERY layer, whatever the parameter route
+//@ region Input#bulkdensity from "g.AD[LTindex] = AD" to "$end"
+//@   serves C19
+//@   opaque PTF1 PTF2 PTF3 PTF4 calcWRed
+//@   ensures stored: g.BD[LTindex] == g.BULK[lindex]
+//@   return-ensures error: !isnil(result0)
+
+// C16  the line of the automatic-management table used for a rotation entry is the line of THAT crop (whole code)
+//@ region Input#automanrow from "crpman := autoScanner.Text()" to "$end" within "if g.AUTOIRRI || g.AUTOFERT || g.AUTOHAR || g.AUTOMAN { autfil := hPath.auto"
+//@   serves C16
+//@   opaque DateConverter$1 dueng
+//@   ghost var rowcrop int
+//@   ghost var entered bool = false
+//@   after call g.ToCropType: ghost rowcrop = res0
+//@   before stmt "if g.AUTOMAN {": ghost entered = true
+//@   requires entry: 0 <= SLFINDindex && SLFINDindex < 299
+//@   ensures owncrop: entered ==> rowcrop == old(g.FRUCHT[SLFINDindex])
+//@   exit-ensures owncropx: entered ==> rowcrop == old(g.FRUCHT[SLFINDindex])
+//@ region Input#automanrow2 from "crpman := autoScanner.Text()" to "$end" within "if g.AUTOHAR || g.AUTOFERT { autfil := hPath.auto"
+//@   serves C16
+//@   opaque DateConverter$1 dueng
+//@   ghost var rowcrop int
+//@   ghost var entered bool = false
+//@   after call g.ToCropType: ghost rowcrop = res0
+//@   before stmt "if g.ODU[SLFINDindex] == 1 {": ghost entered = true
+//@   requires entry: 0 <= SLFINDindex && SLFINDindex < 299
+//@   ensures owncrop: entered ==> rowcrop == old(g.FRUCHT[SLFINDindex])
+//@   exit-ensures owncropx: entered ==> rowcrop == old(g.FRUCHT[SLFINDindex])
+
+// C18  at sowing the override is applied to the freshly read parameters, whichever crop file format was read
+//@ region PhytoOut#override from "PARANAM := hPath.GetParanam(" before "if g.DAUERKULT && g.AKF.Num > 2"
+//@   serves C18
+//@   opaque ReadCropParamYml ReadCropParamClassic CropOverwrite.OverwriteCropParameters
+//@   ghost var applied int = 0
+//@   ghost var readers int = 0
+//@   at call ReadCropParamYml: ghost readers = readers + 1
+//@   at call ReadCropParamClassic: ghost readers = readers + 1
+//@   ghost var calls int = 0
+//@   at call g.CropOverwrite.OverwriteCropParameters: ghost applied = applied + ite(readers == 1, 1, 0)
+//@   at call g.CropOverwrite.OverwriteCropParameters: ghost calls = calls + 1
+//@   ensures readonce: readers == 1
+//@   ensures afterread: applied == calls && calls <= 1
+//@   ensures applied: !isnil(g.CropOverwrite) ==> applied == 1
+
+// C09  root radius of every rooted layer is positive (the root length density divides by its square)
+//@ region PhytoOut#rootradius from "WRAD := make([]float64, g.WURZ)" to "for i := 1; i <= g.WURZ; i++ { if g.FRUCHT[g.AKF.Index] == ZR || g.FRUCHT[g.AKF.Index] == K { WRAD[i-1] = .01"
+//@   serves C09
+//@   requires roots: 0 <= g.WURZ && g.WURZ <= 40 && 0 <= g.AKF.Index && g.AKF.Index < 300
+//@   ensures positive: forall(j, 0, g.WURZ, WRAD[j] > 0)
+//@ loop PhytoOut@"for i := 1; i <= g.WURZ; i++ { if g.FRUCHT[g.AKF.Index] == ZR || g.FRUCHT[g.AKF.Index] == K { WRAD[i-1] = .01"
+//@   invariant range: 1 <= \i && \i <= g.WURZ + 1 && len(WRAD) == g.WURZ
+//@   invariant positive: forall(j, 0, \i - 1, WRAD[j] > 0)
+
+// C10/C12  the effective configuration (file overlaid by the batch line) is what the model uses: fertilisation factor as
+// a real fraction, the date converter with the EFFECTIVE century split, and the scalars copied one to one
+//@ region readConfig#transfer from "g.GROUNDWATERFROM = hconfig.GroundWaterFrom" to "g.LangTag = LangTagConverter(hconfig.DivideCentury, g.DATEFORMAT)"
+//@   serves C10, C12
+//@   opaque DateConverter KalenderConverter LangTagConverter
+//@   ghost var cent int
+//@   ghost var centLang int
+//@   at call DateConverter: ghost cent = arg0
+//@   at call LangTagConverter: ghost centLang = arg0
+//@   ensures[C10] factor: g.DUNGSZEN == real(hconfig.Fertilization)/100
+//@   ensures[C12] century: cent == hconfig.DivideCentury && centLang == hconfig.DivideCentury
+//@   ensures scalars: g.GROUNDWATERFROM == hconfig.GroundWaterFrom && g.DATEFORMAT == hconfig.Dateformat && g.ANJAHR == hconfig.StartYear && g.ETMETH == hconfig.ETpot && g.OUTN == hconfig.LeachingDepth && g.DEPOS == hconfig.NDeposition && g.LAT == hconfig.Latitude && g.ALTI == hconfig.Altitude
+
+// C11  the session's file pool hands out, for a path, the content read from exactly that path and keeps every other
+// path's entry as it was: two runs of a session that name different files never see each other's input
+//@ func FilePool.Get
+//@   serves C11
+//@   ghost var readpath string
+//@   ghost var reads int = 0
+//@   at call os.ReadFile: ghost readpath = arg0
+//@   at call os.ReadFile: ghost reads = reads + 1
+//@   ensures ownfile: reads <= 1 && (reads == 1 ==> readpath == fd.FilePath)
+//@   ensures cached: old(!isnil(fp.list) && indom(fp.list, fd.FilePath)) ==> reads == 0 && result0 == old(fp.list[fd.FilePath])
+//@   ensures entry: indom(fp.list, fd.FilePath)
+//@   ensures others: forallkey(k, fp.list, k != fd.FilePath ==> old(indom(fp.list, k)) && fp.list[k] == old(fp.list[k]))
+//@   ensures kept: forallkey(k, old(fp.list), !old(isnil(fp.list)) ==> indom(fp.list, k))
